@@ -164,6 +164,79 @@ def run_replay(binary, path, timeout=300):
         return -1, (e.stdout or b"").decode("utf-8", "replace") + "\n[replay timed out]"
 
 
+def _list_paths(x, path=()):
+    """Yield paths to every list inside a JSON value, outermost first."""
+    if isinstance(x, list):
+        yield path
+        for i, e in enumerate(x):
+            yield from _list_paths(e, path + (i,))
+    elif isinstance(x, dict):
+        for k in sorted(x):
+            yield from _list_paths(x[k], path + (k,))
+
+
+def _get(x, path):
+    for p in path:
+        x = x[p]
+    return x
+
+
+def _with(x, path, new):
+    if not path:
+        return new
+    if isinstance(x, list):
+        c = list(x)
+    else:
+        c = dict(x)
+    c[path[0]] = _with(x[path[0]], path[1:], new)
+    return c
+
+
+def shrink_crash(pid, binary, rec, budget=120, per_trial=60):
+    """Cross-process delta debugging for scenarios that kill the test process: delete list elements
+    anywhere in the scenario while the replay still dies inside the module under test."""
+    sc = rec.get("scenario")
+    if sc is None:
+        return rec
+    tmp = os.path.join(ROOT, ".build", pid, "shrink.json")
+    trials = [0]
+
+    def dies(candidate):
+        trials[0] += 1
+        with open(tmp, "w") as f:
+            json.dump({"sub": rec["sub"], "scenario": candidate}, f)
+        rc, out = run_replay(binary, tmp, timeout=per_trial)
+        return rc != 0 and dht_frames(out)
+
+    if not dies(sc):
+        rec["shrink_note"] = "did not reproduce when replayed alone; kept un-shrunk"
+        return rec
+    progress = True
+    while progress and trials[0] < budget:
+        progress = False
+        for path in list(_list_paths(sc)):
+            try:
+                lst = _get(sc, path)
+            except (KeyError, IndexError, TypeError):
+                continue
+            if not isinstance(lst, list) or not lst:
+                continue
+            chunk = len(lst)
+            while chunk >= 1 and trials[0] < budget:
+                i = 0
+                while i < len(lst) and trials[0] < budget:
+                    cand_list = lst[:i] + lst[i + chunk:]
+                    cand = _with(sc, path, cand_list)
+                    if dies(cand):
+                        sc, lst, progress = cand, cand_list, True
+                    else:
+                        i += chunk
+                chunk //= 2
+    rec["scenario"] = sc
+    rec["shrink_note"] = f"cross-process ddmin, {trials[0]} trials"
+    return rec
+
+
 def triage(pid, job, binary):
     """Returns (violations, broken_reason). violations = list of (key, msg, replay_path)."""
     out = job.output
@@ -202,6 +275,7 @@ def triage(pid, job, binary):
         m = PANIC_RE.search(out)
         rec["trace"] = out[m.start():m.start() + 6000].splitlines()
         if dht_frames(out):
+            rec = shrink_crash(pid, binary, rec)
             path = save_replay(pid, rec)
             viols.append((rec["key"], rec["msg"] + " | " + out[m.start():m.start() + 300].replace("\n", " | "), path))
             return viols, None
